@@ -1,4 +1,7 @@
-use crate::{check_spec_reserved_keys, Enr, EnrKey, EnrPublicKey, Error, Key, NodeId, MAX_ENR_SIZE};
+use crate::{
+    check_single_rlp_item, check_spec_reserved_keys, Enr, EnrKey, EnrPublicKey, Error, Key, NodeId,
+    MAX_ENR_SIZE,
+};
 use crate::{
     ENR_VERSION, ID_ENR_KEY, IP6_ENR_KEY, IP_ENR_KEY, TCP6_ENR_KEY, TCP_ENR_KEY, UDP6_ENR_KEY,
     UDP_ENR_KEY,
@@ -178,7 +181,7 @@ impl<K: EnrKey> Builder<K> {
 
         // Sanitize all data, ensuring all RLP data is correctly formatted.
         for (key, value) in &self.content {
-            Header::decode(&mut value.as_ref())?;
+            check_single_rlp_item(value)?;
             // values of the keys reserved by the specification must be well-typed
             check_spec_reserved_keys(key, value)?;
         }
